@@ -41,6 +41,54 @@ KERNEL = {   # theorem-name prefix -> kernel name in kernel-specification.yml
     'ListArray_fill': 'awkward_ListArray_fill', 'unique': 'awkward_unique',
     'reduce_countnonzero': 'awkward_reduce_countnonzero', 'reduce_max': 'awkward_reduce_max', 'reduce_min': 'awkward_reduce_min',
     'NumpyArray_copy': 'awkward_NumpyArray_copy', 'reduce_prod': 'awkward_reduce_prod', 'reduce_generic': 'awkward_reduce_sum', 'reduce_argmax': 'awkward_reduce_argmax', 'reduce_argmin': 'awkward_reduce_argmin',
+    # Proofs_C13e.v (models of Kernels2.v)
+    'ByteMaskedArray_getitem_carry': 'awkward_ByteMaskedArray_getitem_carry', 'ByteMaskedArray_mask': 'awkward_ByteMaskedArray_mask',
+    'ByteMaskedArray_overlay_mask': 'awkward_ByteMaskedArray_overlay_mask', 'Index_to_Index64': 'awkward_Index_to_Index64',
+    'IndexedArray_fill_count': 'awkward_IndexedArray_fill_count', 'UnionArray_fillindex_count': 'awkward_UnionArray_fillindex_count',
+    'UnionArray_filltags_const': 'awkward_UnionArray_filltags_const', 'IndexedArray_getitem_carry': 'awkward_IndexedArray_getitem_carry',
+    'IndexedArray_mask': 'awkward_IndexedArray_mask', 'IndexedArray_overlay_mask': 'awkward_IndexedArray_overlay_mask',
+    'IndexedArray_simplify': 'awkward_IndexedArray_simplify', 'index_carry': 'awkward_index_carry',
+    'index_carry_nocheck': 'awkward_index_carry_nocheck', 'const_mask': 'awkward_one_mask',
+    'NumpyArray_contiguous_init': 'awkward_NumpyArray_contiguous_init', 'NumpyArray_fill_frombool': 'awkward_NumpyArray_fill_frombool',
+    'NumpyArray_fill_tobool': 'awkward_NumpyArray_fill_tobool', 'NumpyArray_getitem_next_at': 'awkward_NumpyArray_getitem_next_at',
+    'NumpyArray_getitem_next_array_advanced': 'awkward_NumpyArray_getitem_next_array_advanced',
+    'Identities32_to_Identities64': 'awkward_Identities32_to_Identities64',
+    'IndexedArray_reduce_next_fix_offsets': 'awkward_IndexedArray_reduce_next_fix_offsets_64',
+    'ListOffsetArray_reduce_global_startstop': 'awkward_ListOffsetArray_reduce_global_startstop_64',
+    'reduce_prod_int_bool': 'awkward_reduce_prod_int64_bool_64', 'combinations': 'awkward_combinations',
+    'ByteMaskedArray_numnull': 'awkward_ByteMaskedArray_numnull',
+    'ByteMaskedArray_reduce_next': 'awkward_ByteMaskedArray_reduce_next_64',
+    'ByteMaskedArray_reduce_next_nonlocal_nextshifts': 'awkward_ByteMaskedArray_reduce_next_nonlocal_nextshifts_64',
+    'ByteMaskedArray_reduce_next_nonlocal_nextshifts_fromshifts': 'awkward_ByteMaskedArray_reduce_next_nonlocal_nextshifts_fromshifts_64',
+    'Content_getitem_next_missing_jagged_getmaskstartstop': 'awkward_Content_getitem_next_missing_jagged_getmaskstartstop',
+    'Index_iscontiguous': 'awkward_Index_iscontiguous',
+    'Index_nones_as_index': 'awkward_Index_nones_as_index',
+    'IndexedArray_index_of_nulls': 'awkward_IndexedArray_index_of_nulls',
+    'IndexedArray_reduce_next': 'awkward_IndexedArray_reduce_next_64',
+    'IndexedArray_reduce_next_nonlocal_nextshifts': 'awkward_IndexedArray_reduce_next_nonlocal_nextshifts_64',
+    'IndexedArray_reduce_next_nonlocal_nextshifts_fromshifts': 'awkward_IndexedArray_reduce_next_nonlocal_nextshifts_fromshifts_64',
+    'IndexedOptionArray_rpad_and_clip_mask_axis1': 'awkward_IndexedOptionArray_rpad_and_clip_mask_axis1',
+    'ListArray_getitem_jagged_carrylen': 'awkward_ListArray_getitem_jagged_carrylen',
+    'MaskedArray_getitem_next_jagged_project': 'awkward_MaskedArray_getitem_next_jagged_project',
+    'NumpyArray_contiguous_next': 'awkward_NumpyArray_contiguous_next',
+    'NumpyArray_getitem_next_range': 'awkward_NumpyArray_getitem_next_range',
+    'NumpyArray_reduce_mask_ByteMaskedArray': 'awkward_NumpyArray_reduce_mask_ByteMaskedArray_64',
+    'UnionArray_simplify': 'awkward_UnionArray_simplify',
+    'UnionArray_simplify_one': 'awkward_UnionArray_simplify_one',
+    'carry_SliceMissing64_outindex': 'awkward_carry_SliceMissing64_outindex',
+    'missing_repeat': 'awkward_missing_repeat',
+    'slicemissing_check_same': 'awkward_slicemissing_check_same',
+    # Proofs_C13f.v
+    'ListOffsetArray_toRegularArray': 'awkward_ListOffsetArray_toRegularArray',
+    'NumpyArray_getitem_next_array': 'awkward_NumpyArray_getitem_next_array',
+    'NumpyArray_getitem_next_range_advanced': 'awkward_NumpyArray_getitem_next_range_advanced',
+    'RegularArray_getitem_jagged_expand': 'awkward_RegularArray_getitem_jagged_expand',
+    'UnionArray_regular_index_getsize': 'awkward_UnionArray_regular_index_getsize',
+    'UnionArray_regular_index': 'awkward_UnionArray_regular_index', 'UnionArray_project': 'awkward_UnionArray_project',
+    'NumpyArray_reduce_adjust_starts': 'awkward_NumpyArray_reduce_adjust_starts_64',
+    'NumpyArray_reduce_adjust_starts_shifts': 'awkward_NumpyArray_reduce_adjust_starts_shifts_64',
+    'Identities_extend': 'awkward_Identities_extend', 'Identities_getitem_carry': 'awkward_Identities_getitem_carry',
+    'sort_isort_perm': 'awkward_sort', 'sort_isort_sorted': 'awkward_sort', 'sort_isort_stable': 'awkward_argsort',
 }
 import sys
 files = sys.argv[1:] or ['Proofs_C13.v']
